@@ -16,6 +16,12 @@ var prefixIntrinsics = []struct {
 	prefix string
 	fn     Intrinsic
 }{}
+var noopPackages = map[string]bool{
+	"github.com/cosmos/cosmos-sdk/telemetry":          true,
+	"github.com/armon/go-metrics":                     true,
+	"github.com/prometheus/client_golang/prometheus":  true,
+}
+
 var knownGlobals = map[string]func(p *Path) Value{}
 
 func reg(name string, f Intrinsic) { intrinsics[name] = f }
@@ -34,6 +40,9 @@ func lookupIntrinsic(fn *ssa.Function) (Intrinsic, bool) {
 			p.unsup("unknown shim function %s", n)
 			return nil
 		}, true
+	}
+	if fn.Pkg != nil && noopPackages[fn.Pkg.Pkg.Path()] {
+		return func(p *Path, fn *ssa.Function, args []Value) Value { return p.zeroResults(fn) }, true
 	}
 	if o := fn.Origin(); o != nil && o != fn {
 		if f, ok := intrinsics[o.String()]; ok {
